@@ -109,7 +109,9 @@ def run_record(scn, votes=True):
         'G': scn['G'], 'means': [[int(k), v] for k, v in scn['means'].items()],
         'qg': scn['qgenes'], 'Q': scn['Q'], 'cells': scn['cells'],
         'table': [[[int(x) for x in k.split('/')], v] for k, v in scn['markers'].items()],
-        'B': c['B'], 'fnum': c['fnum'], 'fden': c['fden'], 'K': c['K'], 'chunk': c['chunk'],
+        'B': c['B'], 'fnum': c['fnum'], 'fden': c['fden'],
+        'flk': [[int(k), v[0], v[1]] for k, v in sorted((c.get('flookup') or {}).items())],
+        'K': c['K'], 'chunk': c['chunk'],
         'P': c['P'], 'minm': c['minm'], 'votes': votes}
 
 
